@@ -20,7 +20,7 @@ import time
 
 VERIF = os.path.dirname(os.path.dirname(os.path.abspath(__file__)))
 REPO = os.environ.get("FOLO_REPO", "/repo")
-CACHE = os.path.join(VERIF, ".cache")
+CACHE = os.environ.get("FOLO_VERIF_CACHE") or os.path.join(VERIF, ".cache")
 
 # ---------------------------------------------------------------------------------------------
 # Suites: where harness code lives and how it is built.
@@ -165,6 +165,20 @@ def prepare_suite(suite):
     spec = SUITES[suite]
     if spec["kind"] == "ext":
         d = os.path.join(VERIF, spec["dir"])
+        if REPO != "/repo":
+            # scratch repository (FOLO_REPO): build a copy of the harness crate whose path dependencies point there
+            root = os.path.join(CACHE, "extsrc")
+            dst = os.path.join(root, spec["dir"])
+            shutil.rmtree(dst, ignore_errors=True)
+            shutil.copytree(d, dst, ignore=shutil.ignore_patterns("target", "Cargo.lock"))
+            shutil.rmtree(os.path.join(root, "kani", "common"), ignore_errors=True)
+            shutil.copytree(os.path.join(VERIF, "kani", "common"), os.path.join(root, "kani", "common"))
+            ct = os.path.join(dst, "Cargo.toml")
+            with open(ct) as f:
+                txt = f.read().replace('"/repo/packages/', '"%s/packages/' % REPO)
+            with open(ct, "w") as f:
+                f.write(txt)
+            d = dst
         shutil.copyfile(os.path.join(REPO, "Cargo.lock"), os.path.join(d, "Cargo.lock"))
         return d
     return os.path.join(REPO, "packages", spec["package"])
@@ -457,6 +471,20 @@ def native_replay(h, vecs, replay_path, modes=("dev", "release", "miri")):
         for v in vecs:
             f.write(",".join(str(b) for b in v) + "\n")
     rdir = os.path.join(VERIF, spec["replay_bin"])
+    if REPO != "/repo":
+        # scratch repository: replay against it, not against /repo
+        root = os.path.join(CACHE, "extsrc")
+        dst = os.path.join(root, spec["replay_bin"])
+        shutil.rmtree(dst, ignore_errors=True)
+        shutil.copytree(rdir, dst, ignore=shutil.ignore_patterns("target", "Cargo.lock"))
+        shutil.rmtree(os.path.join(root, "kani", "common"), ignore_errors=True)
+        shutil.copytree(os.path.join(VERIF, "kani", "common"), os.path.join(root, "kani", "common"))
+        ct = os.path.join(dst, "Cargo.toml")
+        with open(ct) as f:
+            txt = f.read().replace('"/repo/packages/', '"%s/packages/' % REPO)
+        with open(ct, "w") as f:
+            f.write(txt)
+        rdir = dst
     shutil.copyfile(os.path.join(REPO, "Cargo.lock"), os.path.join(rdir, "Cargo.lock"))
     out = {}
     for mode in modes:
